@@ -1,5 +1,6 @@
 //! vh-graph: graph-level engines (planner, executor, plan cache, buffer pool, ...).
 mod exec;
+mod partial;
 mod plan;
 mod pool;
 mod requests;
@@ -9,6 +10,8 @@ fn main() {
     let cmd = std::env::args().nth(1).unwrap_or_default();
     match cmd.as_str() {
         "exec" => exec::main_exec(),
+        "partial" => partial::main_partial(),
+        "partial-random" => partial::main_partial_random(),
         "plan" => plan::main_plan(),
         "pool" => pool::main_pool(),
         "pool-stress" => pool::main_pool_stress(),
